@@ -98,6 +98,7 @@ pub struct Director {
     pub progress: Option<Box<dyn Fn() -> u64>>,
 }
 
+#[derive(Debug)]
 pub enum DriveEnd {
     Done,
     /// Nothing is ready, advancing the clock does not help any more.
@@ -229,6 +230,10 @@ pub fn finish<E>(
 
 /// Runs one primitive scenario by name.
 pub fn run_case(mode: &str, seed: u64, keep_log: bool) -> (CaseResult, Vec<String>) {
+    crate::kit::entropy::isolated(seed, || run_case_inner(mode, seed, keep_log))
+}
+
+fn run_case_inner(mode: &str, seed: u64, keep_log: bool) -> (CaseResult, Vec<String>) {
     let mut rng = kit::stream(seed, "prim-policy");
     let sched = Rc::new(Sched::new(seed, policy_from(&mut rng), false));
     kit::panics::take();
